@@ -30,6 +30,30 @@ def gen_cases(tier):
             cfgs = [([], True, None), ([], False, None), ([], True, [1]), ([], False, [3, 1])]
             cases.append({"id": i + 1, "raw": raw, "cfgs": cfgs})
             continue
+        if i % 24 == 4:
+            # CIRCULAR: the divisor assumes a bound on a shared top-level input that the dividend's assumptions do not imply, and GUARANTEES
+            # a relation between that input and one of its outputs.  Its guarantees hold only once its assumptions do: they cannot be the
+            # reason why its assumptions hold.  (The quotient cannot constrain the input either: refuse, or return something sound.)
+            sg = rng.choice([1, -1])
+            k, c_ = rng.randint(1, 3), rng.randint(0, 3)
+            top = {"inv": ["i"], "outv": ["p"], "a": [({"i": -sg}, 0)] + ([({"i": sg}, k + rng.randint(3, 9))] if rng.random() < 0.5 else []),
+                   "g": [({"p": 1, "i": -1}, c_)]}
+            div = {"inv": ["i"], "outv": ["o"], "a": [({"i": sg}, k)], "g": [({"i": sg, "o": -sg}, 0)] + ([({"o": sg, "i": -sg}, 0)] if rng.random() < 0.5 else [])}
+            cfgs = [([], True, None), ([], False, None), ([], True, [4]), ([], False, [1, 2]), ([], True, gen.rorder(rng))]
+            cases.append({"id": i + 1, "raw": {"kind": "random", "top": top, "div": div}, "cfgs": cfgs})
+            continue
+        if i % 24 == 16:
+            # SIBLINGS: two dividend guarantees bound the same shared input from the same side; the only way to eliminate it from either is
+            # the dividend's assumption (the divisor says nothing usable).  Refining each through the ORIGINAL form of the other is circular.
+            sg = rng.choice([1, -1])
+            hi, c_ = rng.randint(3, 6), rng.randint(8, 12)
+            top = {"inv": ["y"], "outv": ["x", "z"], "a": [({"y": sg}, hi)], "g": [({"x": 1, "y": sg}, c_), ({"y": sg, "z": -1}, 0)]}
+            if rng.random() < 0.5:
+                top["g"].reverse()
+            div = {"inv": ["y"], "outv": ["w"], "a": [], "g": [({"w": sg, "y": -sg}, 0)]}
+            cfgs = [([], True, None), ([], False, None), ([], True, [1, 2]), ([], False, [2, 1]), ([], True, gen.rorder(rng))]
+            cases.append({"id": i + 1, "raw": {"kind": "random", "top": top, "div": div}, "cfgs": cfgs})
+            continue
         if i % 12 == 1:
             # a dividend guarantee coupling two inputs shared with the divisor; the assumptions couple them with MIXED signs, so that no
             # bound on their sum follows (tactics 1 / 3 have to check the sign of every coefficient, not only the diagonal)
